@@ -55,20 +55,36 @@ inline uint64_t hashBytes(const std::string& s) { Hash64 h; h.str(s); return h.h
 // ---------------------------------------------------------------------------------------------
 // Input side: serves the first `limit` bytes of an image. At the limit: EOF, or (eio) throws so
 // that the istream front end sets badbit (media error).
+// Read window of the simulated input stream (F-CHUNK): 0 = the whole image is the get area (as with an istringstream);
+// w > 0 = at most w bytes are buffered at a time (as with a file stream: in_avail() and the get area end before the file does).
+inline size_t& simReadWindow() { static size_t w = 0; return w; }
+
 struct SimIBuf : std::streambuf {
 	std::string img;
 	size_t limit;
 	bool eio;
 	bool hitLimit = false;
+	size_t window;
+	size_t winStart = 0;
 	SimIBuf(std::string image, size_t lim = std::string::npos, bool eioAtLimit = false)
-		: img(std::move(image)), eio(eioAtLimit) {
+		: img(std::move(image)), eio(eioAtLimit), window(simReadWindow()) {
 		limit = lim > img.size() ? img.size() : lim;
-		char* b = img.data();
-		setg(b, b, b + limit);
+		setWin(0);
 	}
-	size_t consumed() const { return size_t(gptr() - eback()); }
+	void setWin(size_t pos) {
+		char* b = img.data();
+		winStart = pos;
+		size_t end = window ? std::min(limit, pos + window) : limit;
+		setg(b + pos, b + pos, b + end);
+	}
+	size_t consumed() const { return winStart + size_t(gptr() - eback()); }
 	int_type underflow() override {
 		if (gptr() < egptr()) return traits_type::to_int_type(*gptr());
+		size_t pos = consumed();
+		if (pos < limit) {
+			setWin(pos);
+			return traits_type::to_int_type(*gptr());
+		}
 		if (limit < img.size()) hitLimit = true;
 		if (eio && limit < img.size()) throw std::ios_base::failure("simulated EIO");
 		return traits_type::eof();
@@ -77,7 +93,7 @@ struct SimIBuf : std::streambuf {
 		off_type base = dir == std::ios_base::beg ? 0 : dir == std::ios_base::cur ? off_type(consumed()) : off_type(limit);
 		off_type np = base + off;
 		if (np < 0 || np > off_type(limit)) return pos_type(off_type(-1));
-		setg(eback(), eback() + np, egptr());
+		setWin(size_t(np));
 		return pos_type(np);
 	}
 	pos_type seekpos(pos_type p, std::ios_base::openmode m) override { return seekoff(off_type(p), std::ios_base::beg, m); }
